@@ -6,6 +6,14 @@ ids = [json.loads(l)['id'] for l in open(f'{V}/properties.jsonl')]
 hook_commits = ["d6c2605", "7556b51"]
 
 CLAIMED = {
+ "C01": dict(engine="E2 corpus", technique="proptest-driven program generation (compile step in the loop) x generated values; oracle = serde_json output must be a member of the swc-parsed TypeScript denotation",
+   text="Generated modules of related types in the serde/ts-rs fragment are compiled against /repo; >=64 generated values per type are serialised by serde_json and each must inhabit name()/decl(), inline() and decl_concrete() under an independent TypeScript model (exact objects, DNF intersections). Failing modules are shrunk 16 candidates per build.",
+   note="Trusts swc's parser and tsmodel's denotation (unit-tested, self-checked) and serde_json as the wire format. Generator soundness rules are listed in DESIGN.md Appendix C; serde refusing to serialise is vacuous.",
+   ref="DESIGN.md §4 C01"),
+ "C02": dict(engine="E2 corpus", technique="type-directed witness enumeration + tape sampling + near-miss mutation of real samples; oracle = serde Deserialize accepts and re-serialisation inhabits the type",
+   text="For every generated type on which serde round-trips its own output (as unordered JSON, including everything the type is built from), witnesses of the declared TypeScript type (each union arm, optional-property subsets, arrays 0..2, maps 0..1, safe leaf pool) and leaf-coerced near-miss mutants of real samples are deserialised by the compiled type.",
+   note="Leaves restricted to values every Rust leaf accepts; serde's Content-buffer limitations (128-bit, non-string keys) are kept out of the generator and recognised by message.",
+   ref="DESIGN.md §4 C02"),
  "C09": dict(engine="E1 macro-inproc", technique="exhaustive small-scope enumeration + proptest generation of identifiers; differential oracle = serde_derive's own case.rs",
    text="All Rust identifiers up to length 4 (quick) / 5 (thorough) over an 11-letter mixed alphabet, a pool of raw/mixed-case/non-ASCII names and proptest identifiers up to length 16 are put, for each of the 8 rules and 4 positions, into a one-field / one-variant item that is expanded by the real derive pipeline in-process; the wire name computed by serde_derive's own (included, unmodified) case.rs must be among the string literals of the expansion.",
    note="Trusts serde_derive-1.0.215/src/internals/case.rs as the statement of serde's behaviour, and that the embedded string literal is the emitted name (confirmed on compiled code by C01's corpus). Identifiers on which serde_derive itself panics are outside the domain.",
